@@ -748,6 +748,22 @@ func (h *heap) check(step string) *core.Violation {
 		}
 	}
 	h.held = h.held[:0]
+	// scalars too: the caller may append to what it was handed (a shared table entry with
+	// spare capacity would let that run into the neighbours' text)
+	for _, i := range []int{1, 6, 7, 8, 9, 0, 5, 10, 14} {
+		o := scalars[i].MarshalCedar()
+		want := string(o)
+		o = append(o, ", appended by the caller"...)
+		_ = o
+		if got := string(scalars[i].MarshalCedar()); got != want {
+			return viol("output-aliased", "after %s: the text of universe scalar %d changed after the caller appended to an earlier rendering: %q, was %q", step, i, got, want)
+		}
+	}
+	for _, i := range []int{1, 6, 7, 8, 9} {
+		if got, err := decodeCedar(scalars[i].MarshalCedar()); err != nil || !got.Equal(scalars[i]) {
+			return viol("output-aliased", "after %s: the text of universe scalar %d (%s) no longer decodes to it (err %v) after a caller appended to the rendering of another scalar", step, i, scalars[i].MarshalCedar(), err)
+		}
+	}
 	for _, l := range h.vals {
 		if l.m.kind == 's' {
 			continue
